@@ -1,8 +1,16 @@
 """C07 -- no call modifies caller data; results depend only on argument values."""
 from spec import metrics as SPEC
 
-RUN = ("checks.purity", "run_config")
+RUN = ("checks.c07", "run")
 MAX_REPLAYS = 8
+
+
+def run(cfg):
+    if cfg.get("kind") == "refit":
+        from . import knn
+        return knn.run_config(cfg)
+    from . import purity
+    return purity.run_config(cfg)
 
 
 def configs(tier, seed):
@@ -21,6 +29,13 @@ def configs(tier, seed):
             cfgs.append(dict(kind="model", model=model, metric=metric, n=3, nq=1, labels=labels, fresh=fresh, weight=500))
             if not fresh:
                 cfgs.append(dict(kind="model", model=model, metric=metric, n=3, nq=1, labels=labels, zeros=True, weight=500))
+    # call histories of fits: an object fitted before (on a smaller set) and fitted again equals a never-used object
+    rf = [("uns", 2, 3, 2), ("knn", 3, 3, 2), ("sup", 2, 3, 0)]     # KNN fit needs max_k < n
+    if tier == "thorough":
+        rf += [("uns", 3, 3, 2), ("uns", 2, 4, 3), ("knn", 3, 4, 2), ("sup", 3, 4, 0)]
+    for model, n1, n2, mk in rf:
+        cfgs.append(dict(kind="refit", model=model, n1=n1, n2=n2, max_k=mk, labels=[0, 1, 0, 1][:max(n1, n2)], logic="fresh",
+                         weight=(n2 ** n2) * 300 * max(mk, 1), deadline_s=1500))
     return cfgs
 
 
@@ -34,7 +49,8 @@ def signature(prop, cfg, viol):
 def describe(v, tier):
     v.bounds = dict(metrics="all 47, vectors of length 1..2 (quick) / 1..3 (thorough), symbolic elements in the metric's domain",
                     models="fit + predict of the four models on 3 training samples + 1 query with one feature, metrics manhattan (undecorated) and canberra (decorated); thorough adds chi_squared / squared_euclidean",
-                    histories="three evaluations per metric (same values again after an unrelated call); two fits of fresh models on equal data")
+                    histories="three evaluations per metric (same values again after an unrelated call); two fits of fresh models on equal data; "
+                              "a model object fitted on 2 samples and then on 3 (quick) / up to 4 (thorough) vs a never-used object (table metric, max_k 2..3)")
     v.assumptions = ["a write v <- v + c changes a float64 iff the QF_FP query  fl(x + c) != x  is satisfiable (z3, Float64, RNE)",
                      "other write patterns are candidates decided by replay (bytes of the caller's arrays before vs after on the real package)",
                      "the numpy model logs every element store into buffers owned by the caller, including stores through views (Node.features is a view of a row of X)"]
